@@ -1742,6 +1742,7 @@ class LeCreditBasedChannel(utils.EventEmitter):
         if self.state in (self.State.CONNECTED, self.State.DISCONNECTING):
             self._change_state(self.State.DISCONNECTED)
             self.manager.on_channel_closed(self)
+        self.flush_output()
         if self.connection_result is not None:
             self.connection_result.cancel()
             self.connection_result = None
@@ -1915,6 +1916,8 @@ class LeCreditBasedChannel(utils.EventEmitter):
     def flush_output(self) -> None:
         self.out_queue.clear()
         self.out_sdu = None
+        # Nothing is left to send: release whoever waits in drain()
+        self.drained.set()
 
     def process_output(self) -> None:
         while self.credits > 0:
